@@ -2950,6 +2950,11 @@ class UTPM(Ring, RawAlgorithmsMixIn):
         D,P,M,N = numpy.shape(A.data)
         K = min(M,N)
 
+        if P > 1:
+            # the rank is detected per direction: every direction is decomposed on its own
+            outs = [cls.svd(cls(A.data[:,p:p+1]), epsilon=epsilon) for p in range(P)]
+            return tuple(cls(numpy.concatenate([o[k].data for o in outs], axis=1)) for k in range(3))
+
         if out is None:
             U = cls(cls.__zeros__((D,P,M,M), dtype=A.data.dtype))
             s = cls(cls.__zeros__((D,P,K), dtype=A.data.dtype))
